@@ -148,7 +148,14 @@ func vpC10_O4() {
 		evs[0].E = e2
 	}
 	oldEvents, oldFirst := upd.Events, upd.Events[0]
-	err := upd.Prepend(NewEventList(evs...))
+	el := NewEventList(evs...)
+	if vpBool("transported") {
+		// as after JSON/CBOR transport: indices and parent hashes are recomputed by the
+		// receiver and the list arrives marked as internally consistent
+		el = &EventList{}
+		el.uncompress(NewEventList(evs...).compress())
+	}
+	err := upd.Prepend(el)
 	if err != nil {
 		vpAssert("failed prepend leaves the update unchanged", len(upd.Events) == len(oldEvents) && upd.Events[0] == oldFirst)
 		return
